@@ -21,7 +21,6 @@ import (
 	"os"
 	"path/filepath"
 	"runtime"
-	"runtime/pprof"
 	"strconv"
 	"strings"
 
@@ -81,12 +80,6 @@ func childMain(args []string) int {
 	fail := func(what string, err error) int {
 		fmt.Fprintf(os.Stderr, "child: %s: %v\n", what, err)
 		return 3
-	}
-
-	if pf := os.Getenv("VERIF_C14_PROF"); pf != "" {
-		f, _ := os.Create(pf)
-		_ = pprof.StartCPUProfile(f)
-		defer pprof.StopCPUProfile()
 	}
 
 	if err := s.prepare(*dir); err != nil {
